@@ -18,7 +18,7 @@ func init() { register(c02{}) }
 
 func (c02) ID() string { return "C02" }
 func (c02) Cases(t fw.Tier) int {
-	return tierN(t, 30000, 800000)
+	return tierN(t, 40000, 1200000)
 }
 func (c02) Rule() string {
 	return "case kinds: (a, 60%) a generated draft-07 document (either $schema spelling; definitions, dependencies in both forms, items in both forms + additionalItems, $id-as-anchor, $ref with asserting and applicator siblings that must be ignored) " +
